@@ -2,14 +2,31 @@
 
 Implementation under test: the *current text* of /repo's intvol.pyx run through
 harness.decython (the installed .so is a second witness, reported separately:
-it is stale when the .pyx was edited), utils.py triangulation helpers, rft.py.
+it is stale when the .pyx was edited), utils.py triangulation helpers,
+nipy/utils/arrays.py, rft.py.
 
-Correspondence (Lean model NipyVerif.Model.C15): per-voxel simplex tables for
-the strides actually used (tie T2), EC1d/2d/3d, the rational part of every
-simplex visited by Lips1d/2d/3d (finished here with sqrt/acos), Hermite
-coefficients of rft.Q, ECquasi add/mul/deriv.
+Tie (a), translators -> lean/NipyVerif/Gen/C15Tables.lean: the hard-coded maximal
+simplices of cube_with_strides_center, the centres of the neighbour cubes united
+in EC*d / Lips*d (intvol.pyx) and in decompose2d/3d (utils.py), whether Lips3d
+handles a 0-d squeezed mask; shape fingerprints of complex, join_complexes,
+decompose2d/3d, strides_from.
+
+Correspondence (Lean model NipyVerif.Model.C15*, driver lines):
+  table / cubeflat / decompose       tables for the strides actually used, cubes at any centre, whole-box lists
+  ec1 ec2 ec3                        EC1d/2d/3d
+  lips                               rational argument of every sqrt/acos of every simplex visited (finished here)
+  lipsloop / lipsspec                Lips1d/2d/3d as written (flat indices, Gram matrix, squeeze/delegation) and the
+                                     grid-point form, with the driver's certified sqrt and fixed-point acos
+  sqrtq acosq                        that libm instantiation against math.sqrt / math.acos
+  strides                            strides_from
+  hermite qfin                       rft.Q for dfd = inf / finite (Gamma factors as parameters)
+  qadd qmul qderiv, eq <op>          ECquasi operations (m finite and inf): change_exponent, compatible, add, sub,
+                                     mul, scalar, pow, deriv(k), __call__, ==
+  ivmul quasi eccone                 IntrinsicVolumes product, ECcone.quasi, ECcone.__call__ (kernel, tail, 2 pi
+                                     powers as parameters)
 Oracle: the property's clauses on the real code (independent brute-force
-complex, box formula, invariances, published EC densities).
+complex, box formula, invariances, published EC densities, closed forms of the
+search regions, decompose = complex of the box, curvature coefficients).
 """
 from __future__ import annotations
 
@@ -26,6 +43,7 @@ from harness.core import REPO, PropertyCheck, TieBroken
 from harness.util import close, cmp_rats, fr, frs, parse_rats
 
 PYX = "nipy/algorithms/statistics/intvol.pyx"
+KEY_SINGLE_VOXEL = "lips3d-single-voxel"
 PI = math.pi
 
 # ---------------------------------------------------------------------------
@@ -227,25 +245,55 @@ def _embed(mask, big, off):
 class C15(PropertyCheck):
     id = "C15"
     title = "Intrinsic volumes, Euler characteristic and EC densities are exact"
-    lean_modules = ["NipyVerif.Props.C15"]
+    lean_modules = ["NipyVerif.Props.C15", "NipyVerif.Props.C15B", "NipyVerif.Props.C15Loop", "NipyVerif.Props.C15C",
+                    "NipyVerif.Props.C15D", "NipyVerif.Props.C15E"]
     driver = "Drivers/C15.lean"
     rule = ("cases: binary masks in 1/2/3-d (thorough: every mask on 3x3, 2x2x3 and length 8; random masks on "
-            "larger grids, boxes and masks touching faces/edges/corners), dyadic affine coordinate fields, "
-            "per-shape simplex tables, rft Q/ECquasi/density parameter tuples; distinct by JSON of the case; "
-            "non-trivial = mask with at least one edge of the complex, or dim >= 1 density, or degree >= 2 polynomial")
+            "larger grids, boxes and masks touching faces/edges/corners; C/F/transposed/strided/negative-stride layouts, "
+            "bool/uint8/int/float masks), dyadic affine coordinate fields (oblique, reflected, N = d..d+2 components, voxel "
+            "scales 2^-14..2^6), per-shape simplex tables, cubes at arbitrary (negative) centres and strides, "
+            "decompose2d/3d of boxes, strides_from for dtypes of every item size and both orders, the driver's sqrt/acos, "
+            "rft Q (dfd = inf and finite) / ECquasi operation / IntrinsicVolumes product / ECcone.quasi / ECcone.__call__ "
+            "/ density parameter tuples; distinct by JSON of the case; non-trivial = mask with at least one edge of the "
+            "complex, or dim >= 1 density, or degree >= 2 polynomial, or a product / assembly of >= 2 terms")
     assumptions = [
-        "sqrt and acos (libm) are parameters: the model yields the exact rational argument of every sqrt/acos of "
-        "mu1_edge, mu2_tri, mu3_tet, _mu1_tetface; the harness finishes in binary64 and compares to 1e-9",
-        "mu1/mu2 of a solid box (dihedral angles) and all EC densities of order >= 1 (exp, Gamma, t/F/chi2 tails from "
-        "scipy.stats) are checked numerically against the published closed forms, not proved",
+        "libm is a parameter of the Lips model (structure Num: sqrt, acos, PI). Theorems hold for every Num, or under the "
+        "stated law sqrt(l^2 v) = |l| sqrt(v) (rescaling) / sqrt(det^2) = |det| (box volume in 3 coordinates); the "
+        "driver instantiates sqrt by sqrtQ, proved to be the exact root rounded down on a 2^-64 relative grid "
+        "(sqrtQ_spec), and acos / PI by fixed-point series that are only tested against math.acos (numq cases)",
+        "floating point: the model is exact rational arithmetic; results of Lips*d are compared at 1e-9 relative to h^j "
+        "(h the largest voxel step), EC densities at 1e-8 relative + 1e-12 absolute, ECquasi coefficients at 1e-9",
+        "rft: powers of 2 pi, the kernels exp(-x^2/2) and (1+x^2/m)^(-(m-1)/2), sqrt(1+x^2/m), the tail probabilities "
+        "(scipy.stats) and the Gamma factors of Q(dim, dfd) are parameters of the model (values computed by the harness "
+        "with independent scipy calls: rgamma, not exp(gammaln)). chi^2 field (dfd = inf), orders 1..3: the polynomial "
+        "identities are proved for every n (hermite_inversion, chi2_density_closed_form) given that the sphere curvatures "
+        "over powers of 2 pi are kappa_n N!/(2^j j! k!) - a Gamma identity at half-integers checked numerically (chi2coef "
+        "cases). F field, chi^2 with finite dfd, Hotelling, Roy, multilinear forms: closed forms / tails numeric only",
+        "mu1 of a solid 3-d box (dihedral angle sums around edges: acos is opaque) is checked numerically against a+b+c; "
+        "proved for every box and affine field: mu0 = 1 (ec*_box), mu3 / mu2 / mu1 top-dimensional (lips3_box_volume, "
+        "lips2_box_area, lips1_length), half the surface area of 3-d boxes (lips3_box_mu2) and half the perimeter of 2-d "
+        "boxes (lips2_box_mu1)",
         "intvol.pyx is executed through harness/decython.py (C typing of declared scalars emulated); the installed "
         ".so is compared as a second witness and a disagreement is reported as tag so-differs (stale .so), not as a verdict",
-        "ChiBarSquared (its __call__ is dead code raising AttributeError), Roy and OneSidedF are outside the density oracle",
-        "flat stride arithmetic of the padded mask is tied by the per-shape table check (model tables are grid offsets)",
+        "the set-iteration order of the tables d2/d3/d4 in the code is not modelled (sums are order-independent up to "
+        "rounding); shapes with a zero extent are outside the loop theorems (the loops do not run)",
+        "ChiBarSquared (its __call__ is dead code raising AttributeError) and Roy/OneSidedF closed forms are outside the "
+        "density oracle (Roy and OneSidedF are executed; Roy goes through the eccone correspondence)",
+        "not executed on purpose: utils.z_score / multiple_fast_inv / multiple_mahalanobis (statistics helpers of other "
+        "properties, C20), ECquasi.__div__ semantics under Python 3 (`/` never reaches it; the stub is only called directly)",
     ]
-    level_note = ("EC counts, table/complex identity, box EC, invariances, Gram/volume identities, Hermite recursion are "
-                  "proved for all inputs of the model; mu1/mu2 box values and EC densities of order >= 1 are numeric")
-    finding_keys = {}
+    level_note = ("proved for all inputs of the model: table/complex identity and tiling of the cube by the hard-coded "
+                  "simplices; EC loops = Euler characteristic, box EC, EC invariances; the Lips1d/2d/3d loops as written "
+                  "(flat indices, strides, % nvox wrap, Gram matrix, _convert_stride) equal the sums over the complex, "
+                  "their invariance under padding, position, coordinate translation, axis permutation, thin-slab "
+                  "embedding, the rescaling law, exact top-dimensional volume/area/length of every box under every affine "
+                  "field; strides_from; decompose tables; ECquasi operations incl. deriv (formal derivative, chain rule), "
+                  "Hermite three-term recurrence and inversion, Gaussian, t and chi^2 densities of order 1..3 (polynomial parts); "
+                  "mu2 of 3-d boxes and mu1 of 2-d boxes. Numeric only (oracle): mu1 of 3-d boxes (angle sums), F / "
+                  "Hotelling / Roy / multilinear densities, tail probabilities, Gamma identities; acos/PI of the driver")
+    finding_keys = {KEY_SINGLE_VOXEL: "(fixed in /repo 577b5e1) Lips3d on a mask of shape (1,1,1) with the voxel set returned "
+                                      "[0,0,0,0]: after np.squeeze the mask is 0-d and neither delegation branch ran; the "
+                                      "complex is one vertex (mu0 = 1, EC3d gives 1)"}
 
     # ---- tie (a): regenerate the maximal simplices from utils.py -------------
     def translators(self):
@@ -295,6 +343,12 @@ class C15(PropertyCheck):
 
         def lit(m):
             return "[" + ", ".join("[" + ", ".join(str(int(v)) for v in s) + "]" for s in m) + "]"
+
+        def tl(ts):
+            return "[" + ", ".join("(" + ", ".join(str(int(v)) for v in t) + ")" if len(t) > 1 else str(int(t[0]))
+                                   for t in ts) + "]"
+        zero_dim = self._lips3d_zero_dim_branch()
+        cen = self._centre_tables(tree)
         txt = ("/- GENERATED by harness/props/C15.py from nipy/algorithms/statistics/utils.py\n"
                "   (`cube_with_strides_center`): the hard-coded maximal simplices, as corner\n"
                "   numbers `n = i + 2 j + 4 k`.  Do not edit. -/\n"
@@ -302,8 +356,134 @@ class C15(PropertyCheck):
                f"def maximal3 : List (List Nat) := {lit(found[3])}\n"
                f"def maximal2 : List (List Nat) := {lit(found[2])}\n"
                f"def maximal1 : List (List Nat) := {lit(found[1])}\n"
+               "/-- intvol.pyx `Lips3d`: does the delegation block after `np.squeeze` handle `mask.ndim == 0`\n"
+               "    (`value[0] = check_cast_bin8(mask)`)?  Without it a single-voxel mask returns zeros. -/\n"
+               f"def lips3dZeroDim : Bool := {'true' if zero_dim else 'false'}\n"
+               "/-- centres of the forward neighbour cubes united by `join_complexes` in EC3d/Lips3d and EC2d/Lips2d\n"
+               "    (intvol.pyx), and of the backward neighbours in `decompose3d` / `decompose2d` (utils.py) -/\n"
+               f"def neighbours3 : List (Nat × Nat × Nat) := {tl(cen['n3'])}\n"
+               f"def neighbours2 : List (Nat × Nat × Nat) := {tl([t + (0,) for t in cen['n2']])}\n"
+               f"def decomp3Neg3 : List (Int × Int × Int) := {tl(cen['d3_3'])}\n"
+               f"def decomp3Neg2 : List (Int × Int) := {tl(cen['d3_2'])}\n"
+               f"def decomp3Neg1 : List Int := {tl(cen['d3_1'])}\n"
+               f"def decomp2Neg2 : List (Int × Int) := {tl(cen['d2_2'])}\n"
+               f"def decomp2Neg1 : List Int := {tl(cen['d2_1'])}\n"
                "end NipyVerif.Gen.C15\n")
         return [("NipyVerif/Gen/C15Tables.lean", txt)]
+
+    # shapes (sha1 of the unparsed AST without docstring, centre literals masked) of the table builders the model
+    # writes out by hand; an edit of their structure breaks the tie, an edit of a centre literal flows into Lean
+    SHAPES = {"complex": "02dd5d89159f478c", "join_complexes": "18df53189eacfe58",
+              "decompose3d": "1ef4728da8ba8e3c", "decompose2d": "bb0c8fbfe59feb79", "strides_from": "83e6e80fccb01001"}
+
+    @staticmethod
+    def _shape_of(fn):
+        import hashlib
+        import re
+        fn = ast.parse(ast.unparse(fn)).body[0]
+        if fn.body and isinstance(fn.body[0], ast.Expr) and isinstance(getattr(fn.body[0], "value", None), ast.Constant):
+            fn.body = fn.body[1:]
+        t = re.sub(r"cube_with_strides_center\(\((?:-?\d+,?\s*)+\)", "cube_with_strides_center((CENTER)", ast.unparse(fn))
+        return hashlib.sha1(t.encode()).hexdigest()[:16]
+
+    def _centre_tables(self, utils_tree):
+        """the centre literals passed to cube_with_strides_center in intvol.pyx (EC/Lips) and utils.py (decompose*)"""
+        import re
+        fns = {n.name: n for n in utils_tree.body if isinstance(n, ast.FunctionDef)}
+        try:
+            atree = ast.parse(open(os.path.join(REPO, "nipy/utils/arrays.py")).read())
+        except Exception as e:
+            raise TieBroken(f"nipy/utils/arrays.py does not parse: {e}")
+        fns.update({n.name: n for n in atree.body if isinstance(n, ast.FunctionDef) and n.name == "strides_from"})
+        for name, want in self.SHAPES.items():
+            if name not in fns:
+                raise TieBroken(f"{name} not found")
+            got = self._shape_of(fns[name])
+            if got != want:
+                raise TieBroken(f"{name} has an unexpected shape (fingerprint {got}, modelled {want})")
+
+        def centres(fn):
+            """[(centres of `union = …`, centre of the following `c = …`)] in source order"""
+            out, cur = [], None
+            for node in ast.walk(fn):
+                pass
+            for st in [n for n in ast.walk(fn) if isinstance(n, ast.Assign) and isinstance(n.targets[0], ast.Name)]:
+                tgt = st.targets[0].id
+                calls = [c for c in ast.walk(st.value) if isinstance(c, ast.Call) and
+                         getattr(c.func, "id", None) == "cube_with_strides_center"]
+                if tgt == "union" and calls:
+                    try:
+                        cur = [tuple(ast.literal_eval(c.args[0])) for c in calls]
+                    except Exception:
+                        raise TieBroken(f"{fn.name}: a neighbour centre is not a literal")
+                    out.append([st.lineno, cur, None])
+                elif tgt == "c" and calls:
+                    ctr = tuple(ast.literal_eval(calls[0].args[0]))
+                    cands = [o for o in out if o[0] < st.lineno and o[2] is None]
+                    if not cands or any(ctr) or len(ctr) != len(cands[-1][1][0]):
+                        raise TieBroken(f"{fn.name}: the cube at the voxel is not centred at the origin")
+                    cands[-1][2] = ctr
+            out.sort()
+            if any(o[2] is None for o in out):
+                raise TieBroken(f"{fn.name}: union without its origin cube")
+            return [o[1] for o in out]
+        d3, d2 = centres(fns["decompose3d"]), centres(fns["decompose2d"])
+        if [len(x[0]) for x in d3] != [3, 2, 1] or [len(x[0]) for x in d2] != [2, 1]:
+            raise TieBroken("decompose3d/2d: unexpected sequence of unions")
+        res = {"d3_3": d3[0], "d3_2": d3[1], "d3_1": d3[2], "d2_2": d2[0], "d2_1": d2[1]}
+        # intvol.pyx is not Python: the union blocks are matched textually
+        try:
+            txt = open(os.path.join(REPO, PYX)).read()
+        except Exception as e:
+            raise TieBroken(f"intvol.pyx unreadable: {e}")
+        per = {}
+        for name in ("EC3d", "Lips3d", "Lips2d", "EC2d"):
+            m = re.search(rf"^def {name}\(.*?\):\n(.*?)(?=^def |^cpdef |\Z)", txt, re.S | re.M)
+            if not m:
+                raise TieBroken(f"{name} not found in intvol.pyx")
+            body = "\n".join(l for l in m.group(1).splitlines() if not l.strip().startswith("#"))
+            blocks = re.findall(r"union = join_complexes\(\*\[(.*?)\]\)\s*\n\s*c = cube_with_strides_center\(\(([\d, ]+)\), strides\)",
+                                body, re.S)
+            if len(blocks) != 1:
+                raise TieBroken(f"{name}: expected one `union = join_complexes(*[…])` followed by the origin cube")
+            inner, origin = blocks[0]
+            items = [x.strip() for x in inner.split("cube_with_strides_center") if x.strip()]
+            cs = []
+            for it in items:
+                mm = re.fullmatch(r"\(\(([\d, ]+)\), strides\),?", it)
+                if not mm:
+                    raise TieBroken(f"{name}: unexpected element of the union: {it[:40]!r}")
+                cs.append(tuple(int(v) for v in mm.group(1).split(",")))
+            if any(int(v) for v in origin.split(",")):
+                raise TieBroken(f"{name}: the cube at the voxel is not centred at the origin")
+            per[name] = cs
+        if per["EC3d"] != per["Lips3d"] or per["EC2d"] != per["Lips2d"]:
+            raise TieBroken("EC*d and Lips*d unite different neighbour cubes")
+        if any(len(t) != 3 for t in per["EC3d"]) or any(len(t) != 2 for t in per["EC2d"]):
+            raise TieBroken("neighbour centres of the wrong dimension")
+        res["n3"], res["n2"] = per["EC3d"], per["EC2d"]
+        return res
+
+    def _lips3d_zero_dim_branch(self):
+        """shape of the delegation block of Lips3d in the current intvol.pyx text"""
+        import re
+        try:
+            txt = open(os.path.join(REPO, PYX)).read()
+        except Exception as e:
+            raise TieBroken(f"intvol.pyx unreadable: {e}")
+        m = re.search(r"^def Lips3d\(coords, mask\):\n(.*?)^def ", txt, re.S | re.M)
+        if not m:
+            raise TieBroken("Lips3d not found in intvol.pyx")
+        body = "\n".join(l for l in m.group(1).splitlines() if not l.strip().startswith("#"))
+        blk = re.search(r"    mask = np\.squeeze\(mask\)\n    if mask\.ndim < 3:\n        value = np\.zeros\(4\)\n"
+                        r"        coords = coords\.reshape\(\(coords\.shape\[0\],\) \+ mask\.shape\)\n"
+                        r"        if mask\.ndim == 2:\n            value\[:3\] = Lips2d\(coords, mask\)\n"
+                        r"        elif mask\.ndim == 1:\n            value\[:2\] = Lips1d\(coords, mask\)\n"
+                        r"(        elif mask\.ndim == 0:\n            value\[0\] = check_cast_bin8\(mask\)\n)?"
+                        r"        return value\n", body)
+        if not blk:
+            raise TieBroken("Lips3d: the squeeze / delegation block has an unexpected shape")
+        return blk.group(1) is not None
 
     # ---- generation ------------------------------------------------------------
     def generate(self, rng, tier):
@@ -359,7 +539,11 @@ class C15(PropertyCheck):
         # Lips: masks + dyadic affine coordinate fields
         n_l = 110 if quick else 1400
         lshapes = [(2,), (5,), (8,), (2, 2), (3, 3), (3, 4), (4, 2), (1, 4), (3, 1), (2, 2, 2), (2, 2, 3), (3, 3, 3),
-                   (3, 2, 4), (2, 3, 1), (1, 3, 2), (3, 1, 1), (1, 1, 3)]
+                   (3, 2, 4), (2, 3, 1), (1, 3, 2), (3, 1, 1), (1, 1, 3), (2, 1, 3), (1, 4, 1), (1,),
+                   # a single voxel in a 3-d array, directly or as a 1 x 1 mask embedded as a thin slab: Lips3d returned
+                   # zeros there (fixed in /repo 577b5e1: `elif mask.ndim == 0` branch; the model follows the source
+                   # text through Gen.C15.lips3dZeroDim)
+                   (1, 1, 1), (1, 1)]
         for t in range(n_l):
             sh = rng.choice(lshapes)
             d = len(sh)
@@ -399,6 +583,42 @@ class C15(PropertyCheck):
                           "perm": list(rng.sample(range(d), d)),
                           "layout": rng.choice(LAYOUTS), "clayout": rng.choice(LAYOUTS),
                           "mdtype": rng.choice(MDTYPES)})
+        # the driver's libm (certified sqrt, fixed-point acos) across magnitudes and near the ends of [-1, 1]
+        for _ in range(30 if quick else 300):
+            e = rng.choice([-60, -30, -14, -7, -2, 0, 1, 3, 10, 40])
+            cases.append({"kind": "numq", "op": "sqrt", "x": rng.choice([1, 2, 3, 5, 7, 9, 10, 255, 1023]) * 2.0 ** e})
+            k = rng.choice([1, 2, 3, 5, 10, 20, 30, 45, 52])
+            x = rng.choice([rng.randrange(-1023, 1024) / 1024.0, 1 - 2.0 ** -k, -1 + 2.0 ** -k, 2.0 ** -k, -2.0 ** -k, 0.0])
+            cases.append({"kind": "numq", "op": "acos", "x": x})
+        cases.append({"kind": "numq", "op": "sqrt", "x": 0.0})
+        # strides_from: dtypes of every item size (incl. the empty dtype), both orders and a refused one, ranks 0..5
+        for _ in range(40 if quick else 400):
+            rank = rng.choice([0, 1, 1, 2, 2, 3, 3, 3, 4, 5])
+            cases.append({"kind": "strides", "shape": [rng.choice([0, 1, 1, 2, 3, 4, 5, 7, 12]) for _ in range(rank)],
+                          "dtype": rng.choice(["bool", "i1", "u2", "i4", "f4", "f8", "i8", "c16", "S3", "U2", "V5", "V0"]),
+                          "order": rng.choice(["C", "C", "C", "F", "F", "A"])})
+        # utils.py table builders: cubes at any centre (negative too) and strides (degenerate ones collapse vertices),
+        # decompose2d/3d of boxes incl. thin ones, every dim
+        for _ in range(40 if quick else 500):
+            d = rng.choice([1, 2, 2, 3, 3, 3])
+            st = rng.choice([[1], [5], [3, 1], [1, 1], [4, 2], [12, 4, 1], [4, 2, 1], [2, 1, 1], [1, 1, 1], [6, 1, 3],
+                             [9, 3, 1, 1], []])
+            st = st if rng.random() < 0.15 else [rng.choice([1, 2, 3, 5, 12, 20]) for _ in range(d)]
+            cen = [rng.choice([-2, -1, -1, 0, 0, 1, 3]) for _ in range(d if rng.random() < 0.9 else rng.choice([0, 4]))]
+            cases.append({"kind": "tab", "op": "cubeflat", "k": rng.choice([1, 2, 2, 3, 3, 4, 5]), "center": cen,
+                          "strides": st})
+        for t in range(30 if quick else 400):
+            d = rng.choice([2, 3])
+            sh = [rng.choice([1, 2, 2, 3, 4, 5]) for _ in range(d)]
+            cases.append({"kind": "tab", "op": "decompose", "shape": sh, "dim": rng.choice([1, 2, 2, 3, 3, 4, 4, 5])})
+            if t % 3 == 0:
+                cases.append({"kind": "tab", "op": "testec", "shape": sh})
+        # the remaining public pieces of rft.py: ball / sphere search regions, scale space, one-sided F, the refusals
+        for _ in range(12 if quick else 120):
+            cases.append({"kind": "rftmisc", "n": rng.choice([1, 2, 3, 4, 5]), "r": rng.choice([0.5, 1.0, 2.0, 3.5]),
+                          "vol": rng.choice([1.0, 8.0, 100.0, 0.125]), "dfn": rng.choice([2, 3, 4, 6]),
+                          "dfd": rng.choice(["inf", 5, 12, 40.5]), "x": rng.choice([0.5, 1.0, 2.5, 4.0, 9.0]),
+                          "w": rng.choice([[1.0, 2.0], [0.5, 4.0], [2.0, 2.5]]), "dim": rng.choice([0, 1, 2, 3])})
         # rft: Hermite / Q polynomials, quasi-polynomial arithmetic, densities
         for dim in range(-1, 9 if quick else 14):
             cases.append({"kind": "hermite", "dim": dim})
@@ -409,6 +629,41 @@ class C15(PropertyCheck):
             cases.append({"kind": "quasi", "op": rng.choice(["add", "mul", "deriv"]), "a": q(), "b": q(),
                           "m": rng.choice([1.0, 2.0, 4.0, 8.0, 0.5, 16.0]), "mb_differs": rng.random() < 0.1,
                           "x": rng.choice([-1.5, -0.25, 0.0, 0.5, 1.0, 2.0])})
+        def eqq():
+            return {"c": [float(rng.choice([-3, -2, -1, 0, 1, 2, 3, 0.5, 0.25])) for _ in range(rng.choice([1, 2, 3, 4]))],
+                    "e2": rng.choice([0, 1, 2, 3, 4, 7]), "m": rng.choice([1.0, 2.0, 4.0, 4.0, 8.0, 0.5, 16.0, "inf", "inf"])}
+        for _ in range(90 if quick else 900):
+            a, b = eqq(), eqq()
+            if rng.random() < 0.7:
+                b["m"] = a["m"]
+            if rng.random() < 0.15:
+                b = dict(a, c=list(a["c"]) + [0.0] * rng.choice([0, 0, 1]))
+            cases.append({"kind": "eq", "op": rng.choice(["chexp", "compat", "add", "sub", "mul", "smul", "pow", "deriv",
+                                                           "deriv", "call", "call", "eqtest"]),
+                          "a": a, "b": b, "k": rng.choice([0, 1, 2, 3, 0.5, -1, 1.5, 2.0, -2.5]), "n": rng.choice([1, 1, 2, 3]),
+                          "x": rng.choice([-1.5, -0.25, 0.0, 0.5, 1.0, 2.0])})
+        for _ in range(25 if quick else 250):
+            cases.append({"kind": "qfin", "dim": rng.choice([-1, 0, 1, 2, 3, 4, 5, 6, 7, 9]),
+                          "dfd": rng.choice([1, 2, 3, 4, 5, 6, 7, 10, 20, 40.5, 100])})
+        for n in range(1, 13 if quick else 31):
+            cases.append({"kind": "chi2coef", "n": n})
+        for _ in range(15 if quick else 150):
+            cases.append({"kind": "ivmul", "a": [float(rng.choice([0, 1, 2, 3, 0.5, 6.25])) for _ in range(rng.choice([1, 2, 3, 4]))],
+                          "b": [float(rng.choice([0, 1, 2, 0.5, 4])) for _ in range(rng.choice([1, 1, 2, 3, 5]))]})
+        for _ in range(60 if quick else 700):
+            st = rng.choice(["gauss", "t", "chi2", "chi2", "F", "F", "hotelling", "roy", "mlf"])
+            cc = {"stat": st, "dfn": rng.choice([1, 2, 3, 4, 5, 6]), "k": rng.choice([1, 2, 3]),
+                  "dfd": rng.choice(["inf", 3, 4, 5, 7, 10, 20, 40.5]) if st != "t" else rng.choice([3, 4, 5, 7, 10, 20, 40.5]),
+                  "dims": [rng.choice([1, 2, 3]) for _ in range(rng.choice([1, 2]))]}
+            if st == "gauss":
+                cc["mu"] = [float(rng.choice([0, 1, 2, 0.5])) for _ in range(rng.choice([1, 1, 2, 3]))]
+            if st == "mlf":
+                cc["dfd"] = "inf"
+            if rng.random() < 0.5:
+                cases.append(dict(cc, kind="quasiasm", dim=rng.choice([0, 1, 1, 2, 3, 4])))
+            else:
+                cases.append(dict(cc, kind="eccone", x=rng.choice([0.25, 0.5, 1.0, 1.75, 2.5, 3.0, 4.5]),
+                                  search=[float(rng.choice([0, 0, 1, 2, 0.5, 10])) for _ in range(rng.choice([1, 2, 3, 4]))]))
         n_d = 160 if quick else 2500
         for _ in range(n_d):
             stat = rng.choice(["gauss", "t", "F", "F", "chi2", "chi2", "hotelling", "mlf", "chi2_dfd", "F_inf"])
@@ -545,12 +800,6 @@ class C15(PropertyCheck):
             dd = sq.ndim
         else:
             cs, dd = coords, d
-        lines, impl = [], []
-        if dd >= 1 and sq.size:
-            line = (f"lips {dd} " + _mask_line(sq) + f" {cs.shape[0]} " +
-                    " ".join(frs(cs[a].ravel().tolist()) for a in range(cs.shape[0])))
-            lines, impl = [line], [("lips", val, dd)]
-        fail = None
         # mu_j is homogeneous of degree j in the coordinates: the tolerance of mu_j is relative to h^j, h the
         # largest voxel step (an absolute tolerance would hide a wrong mu_3 of small voxels, and raise false
         # alarms on large ones)
@@ -558,6 +807,17 @@ class C15(PropertyCheck):
         hs = max(1.0, float(max(mask.shape)))
         tols = [1e-9 * max(1, mask.size) * max((h * hs) ** j, 2.0 ** -1000) for j in range(5)]
         tol = tols[0]
+        lines, impl = [], []
+        if dd >= 1 and sq.size:
+            ctxt = f" {cs.shape[0]} " + " ".join(frs(cs[a].ravel().tolist()) for a in range(cs.shape[0]))
+            lines += [f"lips {dd} " + _mask_line(sq) + ctxt, f"lipsspec {dd} " + _mask_line(sq) + ctxt]
+            impl += [("lips", val, dd), ("lipsvec", val, dd, tols)]
+        if mask.size:
+            # the function as written, on the caller's shape (squeeze / delegation inside the model)
+            lines.append(f"lipsloop {d} " + _mask_line(mask) + f" {coords.shape[0]} " +
+                         " ".join(frs(coords[a].ravel().tolist()) for a in range(coords.shape[0])))
+            impl.append(("lipsvec", val, d, tols))
+        fail = None
         ref = reference_mu(mask, coords)
         for j, (a, b) in enumerate(zip(val, ref + [0.0] * (len(val) - len(ref)))):
             if abs(a - b) > tols[j]:
@@ -608,6 +868,343 @@ class C15(PropertyCheck):
             fail = f"{f}[0] = {val[0]} but {f.replace('Lips', 'EC')} = {ec}"
         return {"lines": lines, "impl": impl, "oracle": fail, "nontrivial": mask.sum() >= 2,
                 "tags": tags, "mutated": mut}
+
+    def _numq(self, c):
+        """the driver's instantiation of libm: certified `sqrtQ`, fixed-point `acosQ` against math.sqrt / math.acos"""
+        x = c["x"]
+        if c["op"] == "sqrt":
+            return {"lines": [f"sqrtq {fr(x)}"], "impl": [("num", math.sqrt(x) if x > 0 else 0.0)], "oracle": None,
+                    "nontrivial": x > 0, "tags": ["numq-sqrt"], "mutated": None}
+        return {"lines": [f"acosq {fr(x)}"], "impl": [("num", math.acos(x))], "oracle": None,
+                "nontrivial": True, "tags": ["numq-acos"], "mutated": None}
+
+    def _strides(self, c):
+        from nipy.utils.arrays import strides_from
+        from harness.util import errname
+        shape, dt, order = tuple(c["shape"]), c["dtype"], c["order"]
+        try:
+            got = strides_from(shape, dt, order)
+            obs = [int(v) for v in got]
+        except Exception as e:   # noqa: BLE001
+            got, obs = None, errname(e)
+        fail = None
+        item = np.dtype(dt).itemsize
+        if order not in ("C", "F") or item == 0:
+            if obs != "error:valueError":
+                fail = f"strides_from({shape}, {dt!r}, order={order!r}) = {obs}, expected ValueError"
+        elif isinstance(obs, str):
+            fail = f"strides_from({shape}, {dt!r}, order={order!r}) raised {obs}"
+        elif shape and all(v >= 1 for v in shape):
+            ref = [int(v) for v in np.empty(shape, dtype=dt, order=order).strides]
+            if obs != ref:
+                fail = f"strides_from({shape}, {dt!r}, order={order!r}) = {obs} but a contiguous array has strides {ref}"
+            elif not isinstance(got, tuple):
+                fail = f"strides_from returned {type(got).__name__}, not a tuple"
+        lines, impl = [], []
+        if order in ("C", "F"):
+            lines = [f"strides {item} {1 if order == 'F' else 0} {len(shape)} " + " ".join(str(v) for v in shape)]
+            impl = [("strides", obs)]
+        return {"lines": lines, "impl": impl, "oracle": fail, "nontrivial": len(shape) >= 2,
+                "tags": [f"strides-{order}", f"itemsize={item}"], "mutated": None}
+
+    def _tab(self, c):
+        """utils.py table builders on flat (possibly negative) indices: cube_with_strides_center(centre, strides)[k],
+        list(decompose2d/3d(shape, dim)); sets / generators in the code, compared as sorted lists"""
+        from nipy.algorithms.statistics import utils as U
+        from harness.util import errname
+        tags = ["tab-" + c["op"]]
+        fail = None
+        if c["op"] == "cubeflat":
+            k, cen, st = c["k"], c["center"], c["strides"]
+            try:
+                fs = U.cube_with_strides_center(tuple(cen), tuple(st))[k]
+                obs = sorted(((int(v),) if not isinstance(v, tuple) else tuple(int(x) for x in v)) for v in fs)
+            except Exception as e:   # noqa: BLE001
+                obs = errname(e)
+            line = f"cubeflat {k} {len(cen)} " + " ".join(map(str, cen)) + f" {len(st)} " + " ".join(map(str, st))
+            return {"lines": [line], "impl": [("tab", obs)], "oracle": None, "nontrivial": k >= 2, "tags": tags,
+                    "mutated": None}
+        if c["op"] == "testec":
+            # test_EC2 / test_EC3: numbers of simplices of every dimension of the triangulated box and their
+            # alternating sum
+            sh = tuple(c["shape"])
+            d = len(sh)
+            res = [int(v) for v in (U.test_EC3(sh) if d == 3 else U.test_EC2(sh))]
+            counts, ec = res[:-1], res[-1]          # (tetrahedra,) triangles, edges, vertices
+            ref = [sum(1 for s in complex_of(np.ones(sh, dtype=int)) if len(s) == k) for k in range(d + 1, 0, -1)]
+            fail = None
+            if counts != ref:
+                fail = f"test_EC{d}({sh}) counts {counts} but the triangulated box has {ref} simplices (top dimension first)"
+            elif ec != 1:
+                fail = f"test_EC{d}({sh}): Euler characteristic of a solid box = {ec}"
+            lines = [f"decompose {d} {k} {d} " + " ".join(map(str, sh)) for k in range(d + 1, 0, -1)]
+            return {"lines": lines, "impl": [("count", n) for n in counts], "oracle": fail, "nontrivial": min(sh) >= 2,
+                    "tags": tags, "mutated": None}
+        sh, dim = tuple(c["shape"]), c["dim"]
+        d = len(sh)
+        f = U.decompose3d if d == 3 else U.decompose2d
+        try:
+            out = list(f(sh, dim))
+            obs = sorted(((int(v),) if np.ndim(v) == 0 else tuple(int(x) for x in v)) for v in out)
+        except Exception as e:   # noqa: BLE001
+            obs = errname(e)
+            fail = f"decompose{d}d({sh}, dim={dim}) raised {obs}"
+        if fail is None and 1 <= dim <= d + 1:
+            # property: the simplices of the lattice triangulation of the solid box, each once
+            ref = sorted(tuple(int(np.ravel_multi_index(v, sh)) for v in s)
+                         for s in complex_of(np.ones(sh, dtype=int)) if len(s) == dim)
+            if obs != ref:
+                extra = [t for t in obs if t not in ref][:3]
+                miss = [t for t in ref if t not in obs][:3]
+                fail = (f"decompose{d}d({sh}, dim={dim}) is not the set of {dim}-vertex simplices of the triangulated "
+                        f"box: {len(obs)} vs {len(ref)} simplices, e.g. extra {extra} missing {miss}")
+        line = f"decompose {d} {dim} {d} " + " ".join(map(str, sh))
+        return {"lines": [line], "impl": [("tab", obs)], "oracle": fail, "nontrivial": dim >= 2 and min(sh) >= 2,
+                "tags": tags + [f"dim{dim}"], "mutated": None}
+
+    # ---- rft: ECquasi operations, Q for finite dfd, IntrinsicVolumes product, ECcone assembly -----------------
+    @staticmethod
+    def _mk_eq(rft, q):
+        m = np.inf if q["m"] == "inf" else float(q["m"])
+        return rft.ECquasi(list(q["c"])[::-1], m=m, exponent=q["e2"] / 2)
+
+    @staticmethod
+    def _eq_txt(q):
+        m = "inf" if q["m"] == "inf" else fr(float(q["m"]))
+        return f"{len(q['c'])} {frs(q['c'])} {m} {q['e2']}"
+
+    @staticmethod
+    def _eq_obs(r):
+        from nipy.algorithms.statistics import rft
+        if r is None:
+            return ("none",)
+        if isinstance(r, rft.ECquasi):
+            m = "inf" if not np.isfinite(r.m) else float(r.m)
+            return ("eqres", m, int(round(2 * r.exponent)), [float(v) for v in r.coeffs[::-1]])
+        return ("eqres", "inf", 0, [float(v) for v in np.poly1d(r).coeffs[::-1]])
+
+    def _eq(self, c):
+        from nipy.algorithms.statistics import rft
+        from harness.util import errname
+        op, x = c["op"], c["x"]
+        a, b = self._mk_eq(rft, c["a"]), self._mk_eq(rft, c["b"])
+        ta, tb = self._eq_txt(c["a"]), self._eq_txt(c["b"])
+
+        def val(q, xx=x):
+            mm = np.inf if q["m"] == "inf" else float(q["m"])
+            e = 0.0 if q["m"] == "inf" else q["e2"] / 2
+            return float(np.polyval(list(q["c"])[::-1], xx)) * (1 + xx * xx / mm) ** (-e)
+        fail, want = None, None
+        mm = np.inf if c["a"]["m"] == "inf" else float(c["a"]["m"])
+        line = {"chexp": f"eq chexp {ta} {fr(float(c['k']))}", "compat": f"eq compat {ta} {tb}", "add": f"eq add {ta} {tb}",
+                "sub": f"eq sub {ta} {tb}", "mul": f"eq mul {ta} {tb}", "smul": f"eq smul {ta} {fr(float(c['k']))}",
+                "pow": f"eq pow {ta} {int(c['n'])}", "deriv": f"eq deriv {ta} {int(c['n'])}",
+                "call": f"eq call {ta} {fr(x)} {fr(math.sqrt(1 + x * x / mm))}", "eqtest": f"eq eqtest {ta} {tb}"}[op]
+        try:
+            if op == "chexp":
+                r = a.change_exponent(c["k"]); want = val(c["a"])
+            elif op == "compat":
+                r = bool(a.compatible(b))
+            elif op == "eqtest":
+                r = bool(a == b)
+                if bool(a != b) == r:
+                    fail = f"ECquasi == and != agree ({r}) for {c['a']} and {c['b']}"
+            elif op == "add":
+                r = a + b; want = val(c["a"]) + val(c["b"])
+            elif op == "sub":
+                r = a - b; want = val(c["a"]) - val(c["b"])
+            elif op == "mul":
+                r = a * b; want = val(c["a"]) * val(c["b"])
+            elif op == "smul":
+                r = a * float(c["k"]); want = val(c["a"]) * float(c["k"])
+            elif op == "pow":
+                r = a ** int(c["n"]); want = val(c["a"]) ** int(c["n"])
+            elif op == "deriv":
+                n = int(c["n"]); r = a.deriv(m=n)
+                h = 1e-3
+                if n == 1:
+                    want = (val(c["a"], x + h) - val(c["a"], x - h)) / (2 * h)
+                elif n == 2:
+                    want = (val(c["a"], x + h) - 2 * val(c["a"]) + val(c["a"], x - h)) / (h * h)
+            else:   # call
+                r = float(a(x)); want = None
+                if not close(r, val(c["a"]), 1e-9, 1e-12):
+                    fail = f"ECquasi.__call__({x}) = {r}, expected {val(c['a'])} for {c['a']}"
+            if isinstance(r, bool):
+                obs = ("flag", int(r))
+                if op == "compat" and r != (c["a"]["m"] == c["b"]["m"]):
+                    fail = f"compatible({c['a']['m']}, {c['b']['m']}) = {r}"
+            elif isinstance(r, float):
+                obs = ("num-rel", r)
+            else:
+                obs = self._eq_obs(r)
+                if r is not None and want is not None:
+                    got = float(r(x))
+                    tol = (1e-4 if op == "deriv" else 1e-9) * max(1.0, abs(want), *[abs(v) for v in c["a"]["c"]])
+                    if not abs(got - want) <= tol:
+                        fail = f"ECquasi {op}: value at x={x} is {got!r}, expected {want!r} (a={c['a']}, b={c['b']}, k={c.get('k')}, n={c.get('n')})"
+        except Exception as e:   # noqa: BLE001
+            obs = ("err", errname(e))
+        return {"lines": [line], "impl": [obs], "oracle": fail, "nontrivial": len(c["a"]["c"]) >= 2,
+                "tags": ["eq-" + op, "m=inf" if c["a"]["m"] == "inf" else "m-finite"], "mutated": None}
+
+    def _rftmisc(self, c):
+        """ball / sphere search regions against their closed forms, scale_space and OneSidedF executed on valid
+        arguments, the two NotImplementedError stubs; oracle only (no model line)"""
+        from scipy.special import gamma as G
+        from nipy.algorithms.statistics import rft
+        n, r, fail = c["n"], c["r"], None
+        try:
+            ball = rft.ball_search(n, r=r).mu
+            omega = lambda k: math.pi ** (k / 2) / G(k / 2 + 1)
+            # Steiner: mu_j(B_n(r)) = C(n, j) omega_n / omega_{n-j} r^j
+            ref = [math.comb(n, j) * omega(n) / omega(n - j) * r ** j for j in range(n + 1)]
+            if not np.allclose(ball, ref, rtol=1e-10, atol=0):
+                fail = f"ball_search({n}, r={r}) = {ball.tolist()}, the ball has intrinsic volumes {ref}"
+            sph = rft.spherical_search(n, r=r).mu
+            # the sphere S_r(R^n): mu_j = 2 C(n-1, j) s_n / s_{n-j} r^j for n-1-j even (s_k the area of the unit
+            # sphere of R^k), 0 otherwise
+            area = lambda k: 2 * math.pi ** (k / 2) / G(k / 2)
+            refs = [2 * math.comb(n - 1, j) * area(n) / area(n - j) * r ** j if (n - 1 - j) % 2 == 0 else 0.0
+                    for j in range(n)]
+            if fail is None and not np.allclose(sph, refs, rtol=1e-10, atol=0):
+                fail = f"spherical_search({n}, r={r}) = {sph.tolist()}, expected {refs}"
+            if fail is None and abs(sph[n - 1] - n * omega(n) * r ** (n - 1)) > 1e-10 * max(1.0, sph[n - 1]):
+                fail = f"spherical_search({n}, r={r}): top curvature {sph[n - 1]} is not the surface area"
+            v2b = rft.volume2ball(c["vol"], d=n).mu
+            if fail is None and abs(v2b[-1] - c["vol"]) > 1e-10 * c["vol"]:
+                fail = f"volume2ball({c['vol']}, d={n}) has volume {v2b[-1]}"
+            if fail is None and rft.volume2ball(c["vol"], d=0).mu.tolist() != [1.0]:
+                fail = "volume2ball(d=0) is not a point"
+            ss = rft.scale_space(ball, c["w"]).mu
+            if fail is None and not (np.all(np.isfinite(ss)) and ss.shape == (n + 2,) and ss[0] == ball[0]):
+                fail = f"scale_space(ball_search({n}), {c['w']}) = {ss.tolist()}"
+            dfd = np.inf if c["dfd"] == "inf" else float(c["dfd"])
+            osf = rft.OneSidedF(dfn=c["dfn"], dfd=dfd)
+            v = float(osf.density(c["x"], c["dim"]))
+            if fail is None and not math.isfinite(v):
+                fail = f"OneSidedF(dfn={c['dfn']}, dfd={c['dfd']}).density({c['x']}, {c['dim']}) = {v}"
+            if fail is None and not np.allclose(osf.mu, rft.spherical_search(c["dfn"]).mu):
+                fail = "OneSidedF.__call__ does not restore its intrinsic volumes"
+            for what, f in (("ECcone.integ", lambda: rft.Gaussian().integ()),
+                            ("ECquasi.__div__", lambda: rft.ECquasi([1]).__div__(2))):
+                try:
+                    f(); fail = fail or f"{what} did not raise NotImplementedError"
+                except NotImplementedError:
+                    pass
+        except Exception as e:   # noqa: BLE001
+            fail = f"rft search-region helpers raised {type(e).__name__}: {e} on {c}"
+        return {"lines": [], "impl": [], "oracle": fail, "nontrivial": n >= 2, "tags": ["rftmisc"], "mutated": None}
+
+    def _chi2coef(self, c):
+        """the identification used by chi2_density_closed_form: the sphere curvatures over powers of 2 pi are
+        kappa_n * N! / (2^j j! k!) with k = N - 2j, N = n - 1, kappa_n = sqrt(pi) 2^(1 - N/2) / Gamma(n/2)
+        (a Gamma-function identity at half-integers: numeric); also against the model's `hinv` through `quasi` lines
+        is not needed - the coefficients are exact rationals"""
+        from scipy.special import gamma as G
+        from nipy.algorithms.statistics import rft
+        n = c["n"]
+        N = n - 1
+        cs = rft.spherical_search(n).mu / np.power(2 * np.pi, np.arange(n) / 2.)
+        kap = math.sqrt(math.pi) * 2 ** (1 - N / 2) / G(n / 2)
+        ref = [kap * math.factorial(N) / (2 ** ((N - k) // 2) * math.factorial((N - k) // 2) * math.factorial(k))
+               if (N - k) % 2 == 0 else 0.0 for k in range(n)]
+        fail = None if np.allclose(cs, ref, rtol=1e-11, atol=0) else \
+            (f"spherical_search({n}).mu / (2 pi)^(k/2) = {cs.tolist()} is not kappa N!/(2^j j! k!) = {ref}: the chi^2 "
+             f"densities are not the published closed forms")
+        return {"lines": [], "impl": [], "oracle": fail, "nontrivial": n >= 2, "tags": ["chi2coef"], "mutated": None}
+
+    def _qfin(self, c):
+        from scipy.special import gamma, rgamma
+        from nipy.algorithms.statistics import rft
+        from harness.util import errname
+        j, m = c["dim"], float(c["dfd"])
+        try:
+            obs = ("poly", [float(v) for v in rft.Q(j, dfd=m).c[::-1]])
+        except Exception as e:   # noqa: BLE001
+            obs = ("err", errname(e))
+        # the Gamma factors (parameters of the model), by the reciprocal Gamma function: zero at the poles, signed
+        fs = [float(gamma((m + 1) / 2) * rgamma((m + 2 - j + 2 * L) / 2) * (m / 2) ** (-(j - 1 - 2 * L) / 2))
+              for L in range(max(j - 1, 0) // 2 + 1)]
+        return {"lines": [f"qfin {j} {len(fs)} {frs(fs)}"], "impl": [obs], "oracle": None, "nontrivial": j >= 3,
+                "tags": ["qfin"], "mutated": None}
+
+    def _ivmul(self, c):
+        from nipy.algorithms.statistics import rft
+        r = (rft.IntrinsicVolumes(c["a"]) * rft.IntrinsicVolumes(c["b"])).mu
+        ref = np.convolve(np.asarray(c["a"], float), np.asarray(c["b"], float))
+        fail = None if r.shape == ref.shape and np.allclose(r, ref, rtol=1e-12, atol=0) else \
+            f"IntrinsicVolumes({c['a']}) * IntrinsicVolumes({c['b']}) = {r.tolist()}, the product set has {ref.tolist()}"
+        return {"lines": [f"ivmul {len(c['a'])} {frs(c['a'])} {len(c['b'])} {frs(c['b'])}"],
+                "impl": [("poly", [float(v) for v in r])], "oracle": fail, "nontrivial": min(len(c["a"]), len(c["b"])) >= 2,
+                "tags": ["ivmul"], "mutated": None}
+
+    @staticmethod
+    def _cone(rft, c):
+        st, dfn, dfd = c["stat"], c["dfn"], (np.inf if c["dfd"] == "inf" else float(c["dfd"]))
+        if st == "gauss":
+            return rft.Gaussian(mu=c.get("mu", [1])), (lambda x: x)
+        if st == "t":
+            return rft.TStat(dfd=dfd), (lambda x: x)
+        if st == "chi2":
+            return rft.ChiSquared(dfn=dfn, dfd=dfd), math.sqrt
+        if st == "F":
+            return rft.FStat(dfn=dfn, dfd=dfd), (lambda x: math.sqrt(x * dfn))
+        if st == "hotelling":
+            return rft.Hotelling(dfd=dfd, k=c["k"]), math.sqrt
+        if st == "roy":
+            return rft.Roy(dfn=dfn, dfd=dfd, k=c["k"]), (lambda x: math.sqrt(x * dfn))
+        return rft.MultilinearForm(*c["dims"]), (lambda x: x)
+
+    @staticmethod
+    def _polytxt(p):
+        cs = [float(v) for v in np.atleast_1d(p.c)[::-1]]
+        return f"{len(cs)} {frs(cs)}"
+
+    def _quasiasm(self, c):
+        from nipy.algorithms.statistics import rft
+        obj, _ = self._cone(rft, c)
+        dim, m = c["dim"], obj.dfd
+        q = obj.quasi(dim)
+        cs = [float(v) for v in obj.mu / np.power(2 * np.pi, np.arange(obj.order + 1.) / 2.)]
+        qs = [self._polytxt(rft.Q(k + dim, dfd=m)) if k + dim > 0 else "0" for k in range(len(cs))]
+        mt = "inf" if not np.isfinite(m) else fr(float(m))
+        line = f"quasi {mt} {dim} {len(cs)} {frs(cs)} {len(qs)} " + " ".join(qs)
+        obs = ("eqpair", self._eq_obs(q[0]), self._eq_obs(q[1])) if isinstance(q, tuple) else \
+            ("eqpair", self._eq_obs(q), ("eqres", "inf", 0, [0.0]))
+        return {"lines": [line], "impl": [obs], "oracle": None, "nontrivial": len(cs) >= 2 or dim >= 2,
+                "tags": ["quasi-" + c["stat"], f"dim{dim}"], "mutated": None}
+
+    def _eccone(self, c):
+        from scipy import stats
+        from nipy.algorithms.statistics import rft
+        obj, tr = self._cone(rft, c)
+        x, search = c["x"], c["search"]
+        xt = float(tr(x))
+        m = obj.dfd
+        got = float(rft.ECcone.__call__(obj, xt, search=search))
+        sub = float(obj(x, search=search))
+        fail = None
+        if not close(got, sub, 1e-12, 1e-300):
+            fail = (f"{type(obj).__name__}(x={x}, search={search}) = {sub!r} but the cone formula at the transformed "
+                    f"threshold {xt!r} gives {got!r}")
+        cs = [float(v) for v in obj.mu / np.power(2 * np.pi, np.arange(obj.order + 1.) / 2.)]
+        prod = [float(v) for v in obj.product.mu]
+        ns = len(search) + len(prod) - 1
+        qss = []
+        for k in range(ns):
+            qs = [self._polytxt(rft.Q(j + k, dfd=m)) if j + k > 0 else "0" for j in range(len(cs))]
+            qss.append(f"{len(qs)} " + " ".join(qs))
+        tp = [float(np.power(2 * np.pi, -(k + 1) / 2.)) for k in range(ns)]
+        if np.isfinite(m):
+            r, kern, tail = math.sqrt(1 + xt * xt / m), float(np.power(1 + xt ** 2 / m, -(m - 1) / 2.)), float(stats.t.sf(xt, m))
+            mt = fr(float(m))
+        else:
+            r, kern, tail, mt = 1.0, math.exp(-xt * xt / 2), float(stats.norm.sf(xt)), "inf"
+        line = (f"eccone {mt} {fr(float(obj.mu[0]))} {len(cs)} {frs(cs)} {len(search)} {frs([float(v) for v in search])} "
+                f"{len(prod)} {frs(prod)} {ns} " + " ".join(qss) + f" {ns} {frs(tp)} {fr(xt)} {fr(r)} {fr(kern)} {fr(tail)}")
+        return {"lines": [line], "impl": [("num-rel", got)], "oracle": fail, "nontrivial": ns >= 2,
+                "tags": ["eccone-" + c["stat"], f"search{len(search)}"], "mutated": None}
 
     def _hermite(self, c):
         from nipy.algorithms.statistics import rft
@@ -718,7 +1315,10 @@ class C15(PropertyCheck):
         if want is not None:
             # rounding in the quasi-polynomial evaluation (and in the gammaln differences of the closed form)
             # grows with the degrees of freedom: relative 1e-8, loosened in proportion to max(dfn, dfd) / 10
-            tol = 1e-8 * max(1.0, max(dfn or 0, dfd or 0) / 10.0) * max(abs(scale), 1e-300)
+            # plus an absolute floor: the evaluation cancels O(1) intermediate terms (absolute error ~1e-15), which
+            # is a large relative error for densities of order 1e-8; densities of interest are O(1e-4 .. 1) and
+            # real defects give O(1) relative errors
+            tol = 1e-8 * max(1.0, max(dfn or 0, dfd or 0) / 10.0) * max(abs(scale), 1e-300) + 1e-12
             if not (abs(got - want) <= tol):
                 what = "the upper-tail probability" if dim == 0 else "the published closed form"
                 fail = (f"EC density of order {dim} of the {st} field (dfn={dfn}, dfd={dfd}) at x={x} is {got!r}, "
@@ -743,6 +1343,76 @@ class C15(PropertyCheck):
             return None if int(m[0]) == val else f"impl {val} model {m[0]}"
         if kind == "lips":
             return self._cmp_lips(impl_obs[1], impl_obs[2], model_out)
+        if kind == "lipsvec":
+            val, d, tols = impl_obs[1], impl_obs[2], impl_obs[3]
+            if model_out.startswith(("error", "bad-op")):
+                return f"impl {val} model {model_out}"
+            mu = [float(Fraction(t)) for t in model_out.split()]
+            if len(mu) != d + 1:
+                return f"model returned {len(mu)} values for dimension {d}: {model_out[:80]!r}"
+            mu += [0.0] * (len(val) - len(mu))
+            for j, (a, b) in enumerate(zip(val, mu)):
+                if abs(a - b) > tols[j]:
+                    return f"mu{j}: impl {a!r} model {b!r}"
+            return None
+        if kind == "num":
+            got = float(Fraction(model_out)) if not model_out.startswith(("error", "bad-op")) else None
+            if got is None or abs(got - impl_obs[1]) > 1e-13 * max(1.0, abs(impl_obs[1])):
+                return f"impl {impl_obs[1]!r} model {model_out[:60]}"
+            return None
+        if kind in ("eqres", "eqpair"):
+            def one(obs, txt):
+                toks = txt.split()
+                if txt.startswith(("error", "bad-op", "none")) or len(toks) < 2:
+                    return f"impl quasi model {txt}"
+                mm = "inf" if toks[0] == "inf" else float(Fraction(toks[0]))
+                if mm != obs[1]:
+                    return f"m: impl {obs[1]} model {mm}"
+                if int(toks[1]) != obs[2]:
+                    return f"exponent*2 impl {obs[2]} model {toks[1]}"
+                coef = [Fraction(t) for t in toks[2:]]
+                a = list(obs[3])
+                while a and a[-1] == 0:
+                    a.pop()
+                n = max(len(a), len(coef))
+                a += [0.0] * (n - len(a)); coef += [Fraction(0)] * (n - len(coef))
+                sc = max([1.0] + [abs(float(v)) for v in coef])
+                for k, (u, v) in enumerate(zip(a, coef)):
+                    if abs(u - float(v)) > 1e-9 * sc:
+                        return f"coefficient {k}: impl {u} model {float(v)}"
+                return None
+            if kind == "eqres":
+                return one(impl_obs, model_out)
+            parts = [t.strip() for t in model_out.split(";")]
+            if len(parts) != 2:
+                return f"impl pair model {model_out[:60]}"
+            return one(impl_obs[1], parts[0]) or one(impl_obs[2], parts[1])
+        if kind == "flag":
+            return None if model_out == str(impl_obs[1]) else f"impl {impl_obs[1]} model {model_out}"
+        if kind == "num-rel":
+            if model_out.startswith(("error", "bad-op")):
+                return f"impl {impl_obs[1]!r} model {model_out}"
+            got = float(Fraction(model_out))
+            return None if abs(got - impl_obs[1]) <= 1e-9 * max(abs(impl_obs[1]), 1e-300) + 1e-13 else \
+                f"impl {impl_obs[1]!r} model {got!r}"
+        if kind == "count":
+            if model_out.startswith(("error", "bad-op")):
+                return f"impl {impl_obs[1]} model {model_out}"
+            n = len(model_out.split(" | ")) if model_out.strip() else 0
+            return None if n == impl_obs[1] else f"impl {impl_obs[1]} simplices, model {n}"
+        if kind == "tab":
+            if isinstance(impl_obs[1], str):
+                return None if impl_obs[1] == model_out else f"impl {impl_obs[1]} model {model_out}"
+            if model_out.startswith(("error", "bad-op")):
+                return f"impl {impl_obs[1][:4]} model {model_out}"
+            want = [tuple(int(v) for v in t.split()) for t in model_out.split(" | ")] if model_out.strip() else []
+            got = [tuple(t) for t in impl_obs[1]]
+            return None if want == got else f"impl {got[:6]}… ({len(got)}) model {want[:6]}… ({len(want)})"
+        if kind == "strides":
+            if isinstance(impl_obs[1], str):
+                return None if impl_obs[1] == model_out else f"impl {impl_obs[1]} model {model_out}"
+            want = [int(t) for t in model_out.split()] if not model_out.startswith(("error", "bad-op")) else model_out
+            return None if want == impl_obs[1] else f"impl {impl_obs[1]} model {want}"
         if kind == "poly":
             return cmp_rats(impl_obs[1], model_out, 1e-9, 1e-9)
         if kind == "err":
@@ -828,6 +1498,9 @@ class C15(PropertyCheck):
                         yield c
 
     def classify(self, case, failure):
+        if case.get("kind") == "lips" and list(case.get("shape", [])) in ([1, 1, 1], [1, 1]) and \
+                "1" in case.get("bits", "") and "Lips3d" in failure:
+            return KEY_SINGLE_VOXEL
         return None
 
 
